@@ -277,7 +277,8 @@ class Controller(object):
             finally:
                 sys.settrace(None)
                 self.finished(tid)
-        ths = [threading.Thread(target=body, args=(i, f), daemon=True) for i, f in enumerate(fns)]
+        # every scenario thread carries the same name (pools often name their workers alike): nothing may key on it
+        ths = [threading.Thread(target=body, args=(i, f), daemon=True, name='scorer') for i, f in enumerate(fns)]
         for t in ths:
             t.start()
         with self.cv:
